@@ -985,6 +985,38 @@ Theorem src_map_table_shape :
   length src_pct_closures = 2.
 Proof. conformance "src_map_table_shape" (vm_compute; repeat split; reflexivity). Qed.
 
+(* Model remark.  Model/Reg.v `agg_vvar` (the variance the residual statistics of reg.rs call through `.vstd(2)`) still has the
+   branch order of vmean_var BEFORE the repair of defect #9 (EPS floor first, `n >= 2` second).  It is only applied with
+   min_periods = 2 (src_rstat_apply_conforms: the source says `.vstd(2)`), and from min_periods 2 on the two orders agree:
+   agg_vvar is then the function whose decisions are those of the SOURCE's vmean_var.                                    *)
+Section RegAggVvar.
+  Context {A : Type} {NA : Num A}.
+  Local Open Scope num_scope.
+  Definition agg_vvar_repaired (mp : nat) (l : list A) : A :=
+    let st := Reg.acc3_of l in let n := Reg.a_n st in
+    if guard_eval (env_n (F := A) n mp) (agg_guard "vmean_var" 0) then nnan else
+      let nf := nofnat n in
+      let m1 := Reg.a_m1 st / nf in
+      let m2 := Reg.a_m2 st / nf in
+      let m2 := m2 - powi m1 2 in
+      if guard_eval (env_n (F := A) n mp) (agg_guard "vmean_var" 1) then nnan
+      else if guard_eval (env_var m2 m2) (agg_guard "vmean_var" 2) then nzero
+      else m2 * nf / nofnat (n - 1)%nat.
+  Theorem reg_agg_vvar_is_repaired_order : forall mp (l : list A), 2 <= mp -> Reg.agg_vvar mp l = agg_vvar_repaired mp l.
+  Proof.
+    conformance "reg_agg_vvar_is_repaired_order"
+      (intros mp l Hmp; unfold Reg.agg_vvar, agg_vvar_repaired; eval_tables;
+       set (n := Reg.a_n (Reg.acc3_of l));
+       change (guard_eval (env_n (F := A) n mp) [ACmp TCount CLt TMinPeriods]) with (n <? mp);
+       change (guard_eval (env_n (F := A) n mp) [ACmp TCount CLt (TNat 2)]) with (n <? 2);
+       destruct (n <? mp) eqn:E; [reflexivity|];
+       apply Nat.ltb_ge in E;
+       assert (H1 : (n <? 2) = false) by (apply Nat.ltb_ge; lia);
+       assert (H2 : (2 <=? n) = true) by (apply Nat.leb_le; lia);
+       rewrite H1; cbv zeta; rewrite H2; reflexivity).
+  Qed.
+End RegAggVvar.
+
 (* ---- 7. nothing is left over: every guard of the aggregation table is read by one of the functions of section 3 ---------------- *)
 Theorem src_agg_table_shape :
   map (fun e => (fst e, length (snd e))) src_agg_guards =
@@ -1046,6 +1078,7 @@ Print Assumptions src_trend_emit_conforms.
 Print Assumptions src_regx_emit_conforms.
 Print Assumptions src_resid_emit_conforms.
 Print Assumptions src_rstat_apply_conforms.
+Print Assumptions reg_agg_vvar_is_repaired_order.
 Print Assumptions src_ts_vfdiff_cb_conforms.
 Print Assumptions src_varg_cb_conforms.
 Print Assumptions src_mmnorm_cb_conforms.
